@@ -42,6 +42,11 @@ def gen_case(rng, tier):
     bs = rng.weighted([(512, 2), (1536, 1), (4096, 4), (12288, 1), (65536, 2), (1 << 20, 1), (3 << 20, 1)])
     maxb = 40 if tier == "thorough" else 12
     nblocks = rng.randint(1, maxb if bs < (1 << 20) else 4)
+    many = rng.chance(0.04)
+    if many:
+        # a block map of more than 65536 entries (512-byte blocks keep the image small): whatever a reader loads lazily or
+        # in pages, entry number 65536 and up mean the same as the first ones
+        bs, nblocks = 512, rng.randint(65537, 65700)
     cut = rng.weighted([(0, 3), (rng.randrange(0, bs), 3)])
     size = max(1, nblocks * bs - cut)
     if size <= (nblocks - 1) * bs:
@@ -54,7 +59,9 @@ def gen_case(rng, tier):
             kinds.append(-1)
             continue
         p = {"all": True, "none": False, "alt": b % 2 == 0, "rand": rng.chance(0.6)}[mode]
-        kinds.append(0 if p else rng.weighted([(-1, 3), (-2, 2)]))
+        if many:
+            p = (b >= 65530 and rng.chance(0.5)) or rng.chance(0.0005)
+        kinds.append(0 if p else (rng.weighted([(-1, 3), (-2, 2)]) if not many else (-2 if rng.chance(0.001) else -1)))
     alloc = [b for b, k in enumerate(kinds) if k == 0]
     place = rng.weighted([("identity", 2), ("reverse", 2), ("random", 4), ("gaps", 2), ("high", 1), ("logical", 3)])
     slots = list(range(len(alloc)))
@@ -88,6 +95,12 @@ def gen_case(rng, tier):
     c["reqs"] = gen_requests(rng, size, bs, n=6, big=(12 * (1 << 20) if rng.chance(0.3) else 0))
     if size <= 4 * (1 << 20):
         c["reqs"].append(["raw", 0, size])          # every block of the image in one call
+    if many:
+        # keep every request of such an image short (tens of blocks): a model run over 65536 blocks per request is slow
+        c["reqs"] = [[k, a, (64 * bs if (n < 0 or n > 64 * bs) else n)] for k, a, n in c["reqs"]]
+        for _ in range(6):
+            b = rng.randrange(65530, nblocks)
+            c["reqs"].append(["raw", b * bs, min(size - b * bs, bs * rng.randint(1, 6))])
     # one case in four is opened over a parent (a fully allocated image of the same size): unallocated blocks
     # then read from the parent while zero blocks must still read as zeros
     c["parent_salt"] = rng.randrange(1 << 30) if rng.chance(0.25) else None
